@@ -188,6 +188,10 @@ class Run:
                 msg = oracle(l, r)
                 if msg:
                     sig = classify(l, r, model[i], msg) if classify else None
+                    # a known finding is the behaviour of the UNCHANGED code, which the model mirrors:
+                    # the signature only counts when the model reproduces this very output
+                    if sig and compare_model and r != proto.strip_model_only(model[i]):
+                        sig = None
                     self.failures.append((name, l, r, msg, sig))
         if len(self.samples) < 12:
             k = len(lines) // 2
